@@ -11,7 +11,8 @@
 From Coq Require Import String.
 From Coq Require Import ZArith List Bool.
 From CanVerif Require Dbc.Ast.
-From CanVerif Require Import Can.Data Descriptor.Types Gen.Message Gen.History.
+From CanVerif Require Import Can.Data Descriptor.Types Descriptor.Physical Gen.Message Gen.History Gen.HistoryPhys Gen.Api.
+Import ListNotations.
 Import ListNotations.
 Open Scope Z_scope.
 
@@ -46,6 +47,9 @@ Definition builtin_types : list (name * ctype) := Eval compute in
     (Ast.bytes_of_string "uint8"%string, CT (PUint 8)); (Ast.bytes_of_string "uint16"%string, CT (PUint 16));
     (Ast.bytes_of_string "uint32"%string, CT (PUint 32)); (Ast.bytes_of_string "uint64"%string, CT (PUint 64)) ].
 Definition xxx_prefix : name := Eval compute in Ast.bytes_of_string "xxx_"%string.
+Definition set_prefix : name := Eval compute in Ast.bytes_of_string "Set"%string.
+Definition setraw_prefix : name := Eval compute in Ast.bytes_of_string "SetRaw"%string.
+Definition raw_prefix : name := Eval compute in Ast.bytes_of_string "Raw"%string.
 
 Fixpoint assoc {A} (n : name) (l : list (name * A)) : option A :=
   match l with
@@ -386,3 +390,201 @@ Definition decls_ok (mi : nat) (m : message) (w : wiring) : bool :=
 (** C03 part: declarations, Frame(), UnmarshalFrame() *)
 Definition wiring_ok_c03 (mi : nat) (m : message) (w : wiring) : bool :=
   decls_ok mi m w && frame_wiring_ok m w && unmarshal_wiring_ok m w.
+
+(** ---- C10 part: Reset(), setters, getters *)
+Record rstmt := { rs_field : nat; rs_ftype : prim_type; rs_const : rconst }.
+Definition resolve_reset (w : wiring) (r : name * rconst) : option rstmt :=
+  match field_index w (fst r) with
+  | Some i => match field_type w i with
+              | Some ft => Some {| rs_field := i; rs_ftype := ft; rs_const := snd r |}
+              | None => None
+              end
+  | None => None
+  end.
+(** m.f = <const>: value of the constant in the field's type (true/false only for bool fields; an integer
+    constant assigned to a float32 field is that integer as a binary32) *)
+Definition const_value (ft : prim_type) (c : rconst) : option Z :=
+  match c, ft with
+  | RBool b, PBool => Some (if b then 1 else 0)
+  | RInt n, PFloat32 => Some (f32_bits_of_int n)
+  | RInt n, PInt _ | RInt n, PUint _ => Some n
+  | _, _ => None
+  end.
+Fixpoint run_reset (l : list rstmt) (st : state) : option state :=
+  match l with
+  | [] => Some st
+  | r :: tl => match const_value (rs_ftype r) (rs_const r) with
+               | Some v => run_reset tl (set_nth_state (rs_field r) v st)
+               | None => None
+               end
+  end.
+Definition wiring_reset (w : wiring) (st : state) : option state :=
+  match resolve_all (resolve_reset w) (w_reset w) with Some l => run_reset l st | None => None end.
+
+Definition demanded_const (s : signal) : rconst :=
+  if s_length s =? 1 then RBool (s_default s =? 1) else RInt (s_default s).
+Fixpoint demanded_reset (ss : list signal) (k : nat) : list rstmt :=
+  match ss with
+  | [] => []
+  | s :: tl => {| rs_field := k; rs_ftype := signal_prim_type s; rs_const := demanded_const s |} :: demanded_reset tl (S k)
+  end.
+Definition rconst_eqb (a b : rconst) : bool :=
+  match a, b with RBool x, RBool y => Bool.eqb x y | RInt x, RInt y => x =? y | _, _ => false end.
+Definition rstmt_eqb (a b : rstmt) : bool :=
+  Nat.eqb (rs_field a) (rs_field b) && prim_eqb (rs_ftype a) (rs_ftype b) && rconst_eqb (rs_const a) (rs_const b).
+Definition reset_wiring_ok (m : message) (w : wiring) : bool :=
+  match resolve_all (resolve_reset w) (w_reset w) with
+  | Some l => list_eqb rstmt_eqb l (demanded_reset (msg_signals m) 0)
+  | None => false
+  end.
+
+(** setters *)
+Inductive rsetter_body :=
+| RsDirect
+| RsSat (k : super_type) (desc : nat) (cin cout : ctype)
+| RsPhys (desc : nat) (cout : ctype).
+Record rsetter := { rt_field : nat; rt_ftype : prim_type; rt_param : ctype; rt_body : rsetter_body }.
+Definition resolve_setter (w : wiring) (ns : nsetter) : option (name * rsetter) :=
+  match field_index w (st_field ns), resolve_type w (st_param ns) with
+  | Some fi, Some pt =>
+      match field_type w fi with
+      | Some ft =>
+          let mk b := Some (st_method ns, {| rt_field := fi; rt_ftype := ft; rt_param := pt; rt_body := b |}) in
+          match st_body ns with
+          | SbDirect => mk RsDirect
+          | SbSat k d cin cout =>
+              match desc_index w d, resolve_type w cin, resolve_type w cout with
+              | Some di, Some ci, Some co => mk (RsSat k di ci co)
+              | _, _, _ => None
+              end
+          | SbPhys d cout =>
+              match desc_index w d, resolve_type w cout with
+              | Some di, Some co => mk (RsPhys di co)
+              | _, _ => None
+              end
+          end
+      | None => None
+      end
+  | _, _ => None
+  end.
+(** the value a setter stores for argument [v] (a value of the parameter type; float64 arguments are bit patterns):
+    m.f = v (bool: normalised to 0/1) | m.f = T(desc.SaturatedCast<K>(C(v))) | m.f = T(desc.FromPhysical(v)) *)
+Definition setter_value (sigs : list signal) (r : rsetter) (v : Z) : option Z :=
+  match rt_body r with
+  | RsDirect =>
+      if ctype_eqb (rt_param r) (CT (rt_ftype r)) then
+        Some (match rt_ftype r with PBool => if v =? 0 then 0 else 1 | _ => v end)
+      else None
+  | RsSat k di cin cout =>
+      match nth_error sigs di with
+      | Some s =>
+          if ctype_eqb cout (CT (rt_ftype r)) && kind_conv_ok k cin then
+            match k, rt_param r, rt_ftype r with
+            | StFloat, CT PFloat32, PFloat32 => Some (f32_sat v)
+            | StSigned, CT (PInt _), PInt b => Some (to_prim (PInt b) (clamp (raw_lo s) (raw_hi s) v))
+            | StUnsigned, CT (PUint _), PUint b => Some (to_prim (PUint b) (clamp 0 (raw_hi s) v))
+            | _, _, _ => None
+            end
+          else None
+      | None => None
+      end
+  | RsPhys di cout =>
+      match nth_error sigs di, rt_param r, cout with
+      | Some s, CFloat64, CT p =>
+          if prim_eqb p (rt_ftype r) then Some (to_prim p (setter_raw s (f64_of_bits v))) else None
+      | _, _, _ => None
+      end
+  end.
+Definition wiring_setter (m : message) (w : wiring) (ns : nsetter) (st : state) (v : Z) : option state :=
+  match resolve_setter w ns with
+  | Some (_, r) => match setter_value (msg_signals m) r v with
+                   | Some x => Some (set_nth_state (rt_field r) x st)
+                   | None => None
+                   end
+  | None => None
+  end.
+
+Definition raw_setter (k : nat) (s : signal) : rsetter :=
+  {| rt_field := k; rt_ftype := signal_prim_type s; rt_param := CT (signal_prim_type s);
+     rt_body := if s_length s =? 1 then RsDirect else RsSat (signal_super_type s) k (super_conv s) (field_conv s) |}.
+Definition phys_setter (k : nat) (s : signal) : rsetter :=
+  {| rt_field := k; rt_ftype := signal_prim_type s; rt_param := CFloat64; rt_body := RsPhys k (field_conv s) |}.
+Fixpoint demanded_setters (ss : list signal) (k : nat) : list (name * rsetter) :=
+  match ss with
+  | [] => []
+  | s :: tl =>
+      (if has_physical s then [(set_prefix ++ s_name s, phys_setter k s); (setraw_prefix ++ s_name s, raw_setter k s)]
+       else [(set_prefix ++ s_name s, raw_setter k s)]) ++ demanded_setters tl (S k)
+  end.
+Definition rsetter_body_eqb (a b : rsetter_body) : bool :=
+  match a, b with
+  | RsDirect, RsDirect => true
+  | RsSat k d ci co, RsSat k' d' ci' co' => super_eqb k k' && Nat.eqb d d' && ctype_eqb ci ci' && ctype_eqb co co'
+  | RsPhys d co, RsPhys d' co' => Nat.eqb d d' && ctype_eqb co co'
+  | _, _ => false
+  end.
+Definition rsetter_eqb (a b : name * rsetter) : bool :=
+  name_eqb (fst a) (fst b) && Nat.eqb (rt_field (snd a)) (rt_field (snd b)) && prim_eqb (rt_ftype (snd a)) (rt_ftype (snd b)) &&
+  ctype_eqb (rt_param (snd a)) (rt_param (snd b)) && rsetter_body_eqb (rt_body (snd a)) (rt_body (snd b)).
+(** kind and field type fit together (as for Frame()) *)
+Definition setter_side_ok (p : name * rsetter) : bool :=
+  match rt_body (snd p) with
+  | RsSat StFloat _ _ _ => prim_eqb (rt_ftype (snd p)) PFloat32
+  | RsSat StSigned _ _ _ => is_pint (rt_ftype (snd p))
+  | RsSat StUnsigned _ _ _ => is_puint (rt_ftype (snd p))
+  | RsSat StBool _ _ _ => false
+  | RsDirect => prim_eqb (rt_ftype (snd p)) PBool
+  | RsPhys _ _ => true
+  end.
+Definition setters_wiring_ok (m : message) (w : wiring) : bool :=
+  match resolve_all (resolve_setter w) (w_setters w) with
+  | Some l => list_eqb rsetter_eqb l (demanded_setters (msg_signals m) 0) && forallb setter_side_ok l
+  | None => false
+  end.
+
+(** getters: return m.f | return desc.ToPhysical(float64(m.f)) *)
+Inductive rgetter := RgField (field : nat) (result : ctype) | RgPhys (field : nat) (desc : nat) (cin result : ctype).
+Definition resolve_getter (w : wiring) (g : ngetter) : option (name * rgetter) :=
+  match field_index w (gt_field g), resolve_type w (gt_result g) with
+  | Some fi, Some rt =>
+      match gt_body g with
+      | GbField => Some (gt_method g, RgField fi rt)
+      | GbPhys d cin => match desc_index w d, resolve_type w cin with
+                        | Some di, Some ci => Some (gt_method g, RgPhys fi di ci rt)
+                        | _, _ => None
+                        end
+      end
+  | _, _ => None
+  end.
+Fixpoint demanded_getters (ss : list signal) (k : nat) : list (name * rgetter) :=
+  match ss with
+  | [] => []
+  | s :: tl =>
+      (if has_physical s then [(s_name s, RgPhys k k CFloat64 CFloat64); (raw_prefix ++ s_name s, RgField k (field_conv s))]
+       else [(s_name s, RgField k (field_conv s))]) ++ demanded_getters tl (S k)
+  end.
+Definition rgetter_eqb (a b : name * rgetter) : bool :=
+  name_eqb (fst a) (fst b) &&
+  match snd a, snd b with
+  | RgField f r, RgField f' r' => Nat.eqb f f' && ctype_eqb r r'
+  | RgPhys f d c r, RgPhys f' d' c' r' => Nat.eqb f f' && Nat.eqb d d' && ctype_eqb c c' && ctype_eqb r r'
+  | _, _ => false
+  end.
+Definition getters_wiring_ok (m : message) (w : wiring) : bool :=
+  match resolve_all (resolve_getter w) (w_getters w) with
+  | Some l => list_eqb rgetter_eqb l (demanded_getters (msg_signals m) 0)
+  | None => false
+  end.
+(** raw getter: the field; physical getter: ToPhysical of the field converted to float64 *)
+Definition wiring_getter_raw (w : wiring) (g : ngetter) (st : state) : option Z :=
+  match resolve_getter w g with Some (_, RgField f _) => Some (nth f st 0) | _ => None end.
+Definition wiring_getter_phys (m : message) (w : wiring) (g : ngetter) (st : state) : option f64 :=
+  match resolve_getter w g with
+  | Some (_, RgPhys f d CFloat64 CFloat64) =>
+      match nth_error (msg_signals m) d with Some s => Some (getter_physical s (nth f st 0)) | None => None end
+  | _ => None
+  end.
+
+(** C10 part: declarations, Reset(), CopyFrom()/MarshalFrame() shapes (over the C03 part), setters, getters *)
+Definition wiring_ok_c10 (mi : nat) (m : message) (w : wiring) : bool :=
+  decls_ok mi m w && reset_wiring_ok m w && w_copy w && setters_wiring_ok m w && getters_wiring_ok m w.
